@@ -7,6 +7,7 @@ Props/C20.lean — style settings resolve by precedence and never leak (flat-dic
 -/
 import MagpyVerif.Model.StyleTree
 import MagpyVerif.Gen.Defaults
+import MagpyVerif.Lemmas.StyleResolve
 namespace MagpyVerif.C20
 open MagpyVerif.Style MagpyVerif.Gen
 
@@ -72,5 +73,352 @@ theorem families_present :
 
 example : getStyle (fun k => if k = "color" then some 1 else none) [fun k => if k = "color" then some 2 else none]
     (fun _ => none) [] "color" = some 2 := by decide
+
+/-! ## the nested-dictionary layer (`magpylib/_src/defaults/defaults_utility.py`)
+
+Model: `Model/StyleNested.lean` (`magic_to_dict`, `linearize_dict`, `update_nested_dict`, `MagicProperties.update`
+as the code performs them on ordered dictionaries), tied to the real functions by the `style` correspondence stream. -/
+
+section nested
+open MagpyVerif.StyleNested
+
+/-- `magic_to_dict` terminates: the recursion (which runs on dictionaries the first loop has just built, not on
+sub-terms of the argument) never exhausts the fuel the model gives it — for every argument, including those on
+which it raises. -/
+theorem magic_to_dict_terminates (sep : Char) (t : Tree) : magicToDict sep t ≠ .error .fuel := by
+  cases t with
+  | leaf v => simp [magicToDict]
+  | node kw =>
+    simp only [magicToDict]
+    have := magicFuel_no_fuel_error sep (weightKids sep kw + 1) kw (Nat.lt_succ_self _)
+    cases h : magicFuel sep (weightKids sep kw + 1) kw with
+    | ok r => simp
+    | error e => simp only []; intro he; cases he; exact this h
+
+example : magicToDict '_' (.node [(.str "a_b".toList, .node [(.str "c_d".toList, .leaf (some 1))]), (.str "a".toList, .leaf none),
+    (.str "a_b_c_e".toList, .leaf (some 2))]) =
+    .ok (.node [(.str "a".toList, .node [(.str "b".toList, .node [(.str "c".toList, .node [(.str "e".toList, .leaf (some 2))])])])]) := by
+  rfl
+
+/-- **C20, round trip of the underscore notation.** A flat keyword dictionary whose keys are separator-joined paths
+of separator-free segments, no key a prefix-path of another (in particular no duplicates): `magic_to_dict` succeeds,
+`linearize_dict` of its result succeeds, and the flat dictionary obtained maps every key to the same value as the
+keyword dictionary did (and has no other keys). -/
+theorem linearize_magic_roundtrip (c : Char) (E : Entries) (hsf : SF c E) (hpf : PF E) :
+    ∃ (t : Tree) (f : FlatD), magicToDict c (.node (kwOf c E)) = .ok t ∧ linearizeDict [c] t = .ok f ∧
+      ∀ key : Key, lookup key f = lookup key (flatOf c E) := by
+  obtain ⟨R, hR, hgood, hleaf, _⟩ := magicToDict_kwOf c E hsf hpf
+  refine ⟨.node R, linLoop [c] [] R, hR, rfl, ?_⟩
+  intro key
+  have h : ∀ v, lookup key (linLoop [c] [] R) = some v ↔ lookup key (flatOf c E) = some v := by
+    intro v
+    rw [lookup_linearize c R hgood key v]
+    constructor
+    · rintro ⟨s, q, hk, hp⟩
+      rw [hk]
+      exact lookup_flatOf hsf hpf ((hleaf (s :: q) v).mp hp)
+    · intro h
+      obtain ⟨q, hk, hm⟩ := mem_of_lookup_flatOf h
+      cases q with
+      | nil => exact absurd rfl (hsf _ hm).1
+      | cons s q' => exact ⟨s, q', hk, (hleaf (s :: q') v).mpr hm⟩
+  cases h1 : lookup key (linLoop [c] [] R) with
+  | some v => exact ((h v).mp h1).symm
+  | none =>
+    cases h2 : lookup key (flatOf c E) with
+    | none => rfl
+    | some v => rw [(h v).mpr h2] at h1; cases h1
+
+/-- the result of `magic_to_dict` on such a keyword dictionary is the trie of the keys: string keys without separator,
+pairwise different at every level, a non-dict value `v` at path `q` exactly for the keys `sep.join(q) = v`, and
+no empty dictionaries (every value of the result lies on the path of some key). -/
+theorem magic_to_dict_is_trie (c : Char) (E : Entries) (hsf : SF c E) (hpf : PF E) :
+    ∃ R, magicToDict c (.node (kwOf c E)) = .ok (.node R) ∧ goodKids c R = true ∧
+      (∀ (q : List Str) (v : Option Val), getPath (.node R) (q.map Key.str) = some (.leaf v) ↔ (q, v) ∈ E) ∧
+      (∀ (q : List Str) (x : Tree), q ≠ [] → getPath (.node R) (q.map Key.str) = some x → ∃ p v, (p, v) ∈ E ∧ q <+: p) :=
+  magicToDict_kwOf c E hsf hpf
+
+/-- non-vacuity: a keyword dictionary that meets the hypotheses, with shared first segments in non-adjacent keys -/
+def exampleKw : Entries :=
+  [(["a".toList, "b".toList], some 1), (["d".toList], some 2), (["a".toList, "c".toList, "e".toList], none), (["a".toList, "c".toList, "f".toList], some 3)]
+
+example : SF '_' exampleKw ∧ PF exampleKw := by decide
+
+example : magicToDict '_' (.node (kwOf '_' exampleKw)) =
+    .ok (.node [(.str "a".toList, .node [(.str "b".toList, .leaf (some 1)),
+        (.str "c".toList, .node [(.str "e".toList, .leaf none), (.str "f".toList, .leaf (some 3))])]), (.str "d".toList, .leaf (some 2))]) := by
+  rfl
+
+/-- **C20, the notations are equivalent.** For one assignment of a non-dict value `v` at the path `k.p` (segments
+without separator): the underscore-keyword form `{k_p1_…_pn: v}` is turned by `magic_to_dict` into exactly the
+nested-dict form `{k: {p1: … {pn: v}}}`, so `update_nested_dict` gives the same result for both under every flag
+combination; and with both flags off that result is the attribute assignment `d.k.p1.….pn = v`. -/
+theorem notations_equivalent (c : Char) (k : Str) (ps : List Str) (v : Option Val) (hf : ∀ w ∈ k :: ps, c ∉ w) :
+    magicToDict c (.node [(.str (joinWith c (k :: ps)), .leaf v)]) = .ok (pathTree ((k :: ps).map Key.str) (.leaf v)) ∧
+    (∀ (sko rno : Bool) (d : Tree),
+      (match magicToDict c (.node [(.str (joinWith c (k :: ps)), .leaf v)]) with
+        | .ok m => updateNested sko rno d m
+        | .error e => .error e) =
+      updateNested sko rno d (pathTree ((k :: ps).map Key.str) (.leaf v))) ∧
+    (∀ d : Tree, updateNested false false d (pathTree ((k :: ps).map Key.str) (.leaf v)) =
+      .ok (setPath d ((k :: ps).map Key.str) (.leaf v))) := by
+  have h1 := magicToDict_single c v k ps hf
+  refine ⟨h1, ?_, ?_⟩
+  · intro sko rno d; rw [h1]
+  · intro d
+    simp only [List.map_cons, pathTree, updateNested]
+    rw [updDict_pathTree]
+
+example : magicToDict '_' (.node [(.str "path_line_width".toList, .leaf (some 3))]) =
+    .ok (pathTree [.str "path".toList, .str "line".toList, .str "width".toList] (.leaf (some 3))) := by
+  rfl
+
+/-- **the restriction of `notations_equivalent` to non-dict values is necessary** (witness, genuine defect of the code):
+`magic_to_dict` recurses into every dict *value*, so a dict given as the value of a plain property is rewritten when it
+comes through a constructor / `update` keyword, but not when it is assigned as an attribute.  Real code:
+`Trace3d(kwargs={"clip_on": False}).kwargs == {"clip": {"on": False}}` (and `show()` then fails in matplotlib), while
+`t.kwargs = {"clip_on": False}` keeps the dict. -/
+theorem magic_rewrites_dict_valued_leaves :
+    okEq (magicToDict '_' (.node [(.str "kwargs".toList, .node [(.str "clip_on".toList, .leaf (some 0))])]))
+      (.node [(.str "kwargs".toList, .node [(.str "clip".toList, .node [(.str "on".toList, .leaf (some 0))])])]) = true ∧
+    okEq (.ok (setPath (.node [(.str "kwargs".toList, .leaf none)]) [.str "kwargs".toList] (.node [(.str "clip_on".toList, .leaf (some 0))])))
+      (.node [(.str "kwargs".toList, .node [(.str "clip_on".toList, .leaf (some 0))])]) = true := by
+  decide +kernel
+
+/-- **C20, last assignment wins at tree level (characterisation for every flag combination).**
+`r = update_nested_dict(d, u, same_keys_only, replace_None_only)` for a dict `u` with pairwise different keys at every
+level: a non-dict value `v` that `u` has at path `p` is in `r` at `p` iff `p` is *writable* in `d` (walking `p` in `d`:
+a non-dict value met on the way is overwritten unless it is non-None and `replace_None_only`; a dict of `d` at `p` is
+overwritten unless `replace_None_only`; a missing key is created unless `same_keys_only`); otherwise `r` has at `p`
+what `d` had there. -/
+theorem update_nested_leaf (sko rno : Bool) (d : Tree) (ku : Dict) (hu : wfKids ku = true) (p : List Key) (v : Option Val)
+    (h : getPath (.node ku) p = some (.leaf v)) :
+    getPath (updDict sko rno d ku) p = if writable sko rno d p then some (.leaf v) else getPath d p := by
+  rw [getPath_updDict_leaf sko rno v p d ku hu h]
+  cases writable sko rno d p <;> rfl
+
+/-- **last assignment wins** (plain update, both flags off): every non-dict value of `u` is in the result, whatever `d` is. -/
+theorem update_nested_last_wins (d : Tree) (ku : Dict) (hu : wfKids ku = true) (p : List Key) (v : Option Val)
+    (h : getPath (.node ku) p = some (.leaf v)) :
+    getPath (updDict false false d ku) p = some (.leaf v) := by
+  rw [update_nested_leaf false false d ku hu p v h, writable_ff]; rfl
+
+/-- `same_keys_only` ignores unknown keys: a value of `u` is written iff walking its path in `d` never leaves `d`
+(every key exists as long as `d` has dicts there); a path that leaves `d` is not created. -/
+theorem update_nested_same_keys_only (d : Tree) (ku : Dict) (hu : wfKids ku = true) (p : List Key) (v : Option Val)
+    (h : getPath (.node ku) p = some (.leaf v)) :
+    getPath (updDict true false d ku) p = if covers d p then some (.leaf v) else none := by
+  rw [update_nested_leaf true false d ku hu p v h, writable_tf_eq_covers]
+  cases hc : covers d p
+  · simp [getPath_eq_none_of_not_covers p d hc]
+  · rfl
+
+/-- `replace_None_only` only fills None: where `d` has a non-dict value `y` at the path of a value `v` of `u`, the
+result has `v` if `y` is None and keeps `y` otherwise (for both settings of `same_keys_only`). -/
+theorem update_nested_replace_None_only (sko : Bool) (d : Tree) (ku : Dict) (hu : wfKids ku = true) (p : List Key)
+    (v y : Option Val) (h : getPath (.node ku) p = some (.leaf v)) (hd : getPath d p = some (.leaf y)) :
+    getPath (updDict sko true d ku) p = some (.leaf (if y.isNone then v else y)) := by
+  rw [update_nested_leaf sko true d ku hu p v h, writable_of_getPath_leaf sko true p d y hd]
+  cases y with
+  | none => simp
+  | some x => simp [hd]
+
+/-- **every other leaf is untouched**, for every flag combination: a path that `u` does not reach (walking it in `u`
+leaves `u` at a missing key) has in the result exactly what it had in `d` — in particular every non-dict value of `d`
+at such a path keeps its value, and no such path is created. -/
+theorem update_nested_other_leaves_untouched (sko rno : Bool) (d : Tree) (ku : Dict) (hu : wfKids ku = true) (p : List Key)
+    (h : covers (.node ku) p = false) :
+    getPath (updDict sko rno d ku) p = getPath d p :=
+  getPath_updDict_untouched sko rno p d ku hu h
+
+/-- non-vacuity of the update theorems: all four flag combinations on one example with an unknown key `z`,
+a None leaf, a non-None leaf, and a dict-versus-value clash -/
+example :
+    let d : Tree := .node [(.str "a".toList, .node [(.str "x".toList, .leaf none), (.str "y".toList, .leaf (some 1))]), (.str "b".toList, .leaf (some 2))]
+    let ku : Dict := [(.str "a".toList, .node [(.str "y".toList, .leaf (some 7)), (.str "x".toList, .leaf (some 8)), (.str "z".toList, .leaf (some 9))]),
+                      (.str "b".toList, .node [(.str "q".toList, .leaf (some 5))])]
+    wfKids ku = true ∧
+    updDict false false d ku = .node [(.str "a".toList, .node [(.str "x".toList, .leaf (some 8)), (.str "y".toList, .leaf (some 7)), (.str "z".toList, .leaf (some 9))]),
+                                      (.str "b".toList, .node [(.str "q".toList, .leaf (some 5))])] ∧
+    updDict true false d ku = .node [(.str "a".toList, .node [(.str "x".toList, .leaf (some 8)), (.str "y".toList, .leaf (some 7))]),
+                                      (.str "b".toList, .node [(.str "q".toList, .leaf (some 5))])] ∧
+    updDict false true d ku = .node [(.str "a".toList, .node [(.str "x".toList, .leaf (some 8)), (.str "y".toList, .leaf (some 1)), (.str "z".toList, .leaf (some 9))]),
+                                      (.str "b".toList, .leaf (some 2))] ∧
+    updDict true true d ku = .node [(.str "a".toList, .node [(.str "x".toList, .leaf (some 8)), (.str "y".toList, .leaf (some 1))]),
+                                      (.str "b".toList, .leaf (some 2))] := by
+  refine ⟨rfl, rfl, rfl, rfl, rfl⟩
+
+/-- **aliasing (instead of "does not modify its inputs", which is trivial in a functional model).**
+`update_nested_dict` starts from `deepcopy(d)`, so no dictionary object of `d` is part of the result (and none is written);
+but `d = u.copy()` is a shallow copy: every dictionary object of the result that is not new is a dictionary nested
+inside `u`.  `updDictA` is the model with an address on every dictionary (0 = created by the call); forgetting the
+addresses gives the plain model. -/
+theorem update_nested_sharing (sko rno : Bool) (d : ATree) (ku : List (Key × ATree)) :
+    (updDictA sko rno d ku).erase = updDict sko rno d.erase (eraseKids ku) ∧
+    ∀ a ∈ (updDictA sko rno d ku).addrs, a ∈ addrsKids ku :=
+  ⟨updDictA_erase sko rno d ku, fun a h => addrs_updDictA sko rno d ku a h⟩
+
+/-- the sharing with `u` really happens: `update_nested_dict({"a": None}, {"a": {"b": {"c": 1}}})["a"]["b"]` is the
+caller's `u["a"]["b"]` (address 3), while the dict at `["a"]` is new — the stream compares exactly this with `id()`. -/
+example : (updDictA false false (.node 1 [(.str "a".toList, .leaf none)])
+    [(.str "a".toList, .node 2 [(.str "b".toList, .node 3 [(.str "c".toList, .leaf (some 1))])])]).preorder = [0, 0, 3] := by
+  rfl
+
+/-- **C20, the notations are equivalent through `MagicProperties.update`.** `obj.update({k: {p1: … {pn: v}}})`
+(nested-dict argument) and `obj.update(k_p1_…_pn=v)` (underscore keyword) have the same outcome — the same new
+`as_dict()` or the same exception class — for every property class (schema), every state of the object and both
+settings of `_match_properties` and `_replace_None_only`. -/
+theorem mp_update_notations_equivalent (schema cur : Tree) (k : Str) (ps : List Str) (v : Option Val)
+    (hf : ∀ w ∈ k :: ps, '_' ∉ w) (matchProps rno : Bool) :
+    mpUpdate schema cur (some (pathTree ((k :: ps).map Key.str) (.leaf v))) [] matchProps rno =
+    mpUpdate schema cur none [(.str (joinWith '_' (k :: ps)), .leaf v)] matchProps rno := by
+  have h1 := magicToDict_pathTree '_' v k ps hf
+  have h2 := magicToDict_single '_' v k ps hf
+  simp only [List.map_cons, pathTree] at h1
+  simp only [mpUpdate, List.map_cons, pathTree, mergeDict, List.foldl_nil, List.foldl_cons, setKey, h1, h2]
+
+example : okEq (mpUpdate (.node [(.str "line".toList, .node [(.str "color".toList, .leaf none), (.str "width".toList, .leaf none)]), (.str "show".toList, .leaf none)])
+      (.node [(.str "line".toList, .node [(.str "color".toList, .leaf (some 1)), (.str "width".toList, .leaf none)]), (.str "show".toList, .leaf (some 1))])
+      none [(.str "line_width".toList, .leaf (some 5))] true false)
+    (.node [(.str "line".toList, .node [(.str "color".toList, .leaf (some 1)), (.str "width".toList, .leaf (some 5))]), (.str "show".toList, .leaf (some 1))]) = true := by
+  decide +kernel
+
+/-- an unknown property name is rejected with AttributeError (the example of the `mp` stream cases) -/
+example : (match mpUpdate (.node [(.str "show".toList, .leaf none)]) (.node [(.str "show".toList, .leaf (some 1))])
+      none [(.str "colour".toList, .leaf (some 5))] true false with
+    | .error .attribute => true
+    | _ => false) = true := by
+  decide +kernel
+
+/-! ### link between the nested layer and the flat precedence theorems -/
+
+/-- a flat dictionary read as the flat model's function (a missing key reads as None) -/
+def toFlat (f : FlatD) : Flat := fun s => (lookup (.str s.toList) f).join
+
+/-- the keyword arguments of the flat model for a keyword dictionary given by the paths of its keys -/
+def kwList (c : Char) (E : Entries) : List (String × Option Nat) := E.map fun e => (String.ofList (joinWith c e.1), e.2)
+
+theorem update_of_mem : ∀ (u : List (String × Option Nat)) (d : Flat), u.Pairwise (fun a b => a.1 ≠ b.1) →
+    ∀ k v, (k, v) ∈ u → update d u k = v := by
+  intro u
+  induction u with
+  | nil => intro d _ k v h; cases h
+  | cons kv rest ih =>
+    intro d hp k v hm
+    have hstep : update d (kv :: rest) = update (fun x => if x = kv.1 then kv.2 else d x) rest := by
+      simp [update, List.foldl_cons]
+    rw [hstep]
+    rcases List.mem_cons.mp hm with e | e
+    · subst e
+      rw [update_other _ rest k (fun kv' h' => ((List.pairwise_cons.mp hp).1 kv' h').symm)]
+      simp
+    · exact ih _ (List.pairwise_cons.mp hp).2 k v e
+
+theorem kwList_keys_ne (c : Char) : ∀ (E : Entries), SF c E → PF E → (kwList c E).Pairwise (fun a b => a.1 ≠ b.1) := by
+  intro E
+  induction E with
+  | nil => intro _ _; exact List.Pairwise.nil
+  | cons e E' ih =>
+    intro hsf hpf
+    have hsf' : SF c E' := fun x hx => hsf x (List.mem_cons_of_mem _ hx)
+    simp only [kwList, List.map_cons, List.pairwise_cons]
+    refine ⟨?_, ih hsf' (List.pairwise_cons.mp hpf).2⟩
+    intro b hb
+    simp only [List.mem_map] at hb
+    obtain ⟨e', he', rfl⟩ := hb
+    intro heq
+    have h0 := hsf e (by simp)
+    have h1 := hsf e' (List.mem_cons_of_mem _ he')
+    have := joinWith_inj h0.1 h1.1 h0.2 h1.2 (String.ofList_injective heq)
+    exact ((List.pairwise_cons.mp hpf).1 e' he').1 (by rw [this]; exact List.prefix_rfl)
+
+/-- **C20, the nested resolution agrees with the flat precedence theorem.**  `resolveNested` is `get_style` at the
+level of nested dictionaries (`update_nested_dict` of the object's style with `magic_to_dict` of the show() keywords,
+plain; then with `magic_to_dict` of the flat family/base defaults, same-keys-only and fill-None-only).  For a path `q`
+at which the object's style has a non-dict value, and keyword/default dictionaries whose keys are separator-joined
+paths (prefix-free) none of which is a proper prefix or a proper extension of `q`: the resolved nested style has at
+`q` exactly the value the flat model `getStyle` (theorem `resolution_precedence`) gives for the key `sep.join(q)` on the
+linearized inputs — `linearize_dict` of the object's style, the keyword list, and defaults `familyDefaults base fams`. -/
+theorem nested_resolution_matches_flat (c : Char) (ko : Dict) (kwE dfE : Entries) (base : Flat) (fams : List Flat)
+    (hobj : goodKids c ko = true) (hsfk : SF c kwE) (hpfk : PF kwE) (hsfd : SF c dfE) (hpfd : PF dfE)
+    (hdef : ∀ s, toFlat (flatOf c dfE) s = familyDefaults base fams s)
+    (q : List Str) (x : Option Val) (hq : getPath (.node ko) (q.map Key.str) = some (.leaf x))
+    (hck : ∀ e ∈ kwE, e.1 <+: q ∨ q <+: e.1 → e.1 = q) (hcd : ∀ e ∈ dfE, e.1 <+: q ∨ q <+: e.1 → e.1 = q) :
+    ∃ s2, resolveNested c (.node ko) (kwOf c kwE) (kwOf c dfE) = .ok s2 ∧
+      getPath s2 (q.map Key.str) =
+        some (.leaf (getStyle base fams (toFlat (linLoop [c] [] ko)) (kwList c kwE) (String.ofList (joinWith c q)))) := by
+  obtain ⟨RK, hRK, hgK, hlK, hnK⟩ := magicToDict_kwOf c kwE hsfk hpfk
+  obtain ⟨RD, hRD, hgD, hlD, hnD⟩ := magicToDict_kwOf c dfE hsfd hpfd
+  have hqne : q ≠ [] := by intro e; subst e; simp [getPath_nil] at hq
+  have hqf : ∀ w ∈ q, c ∉ w := (good_getPath q (.node ko) _ (by simpa [Tree.good] using hobj) hq).1
+  refine ⟨updDict true true (updDict false false (.node ko) RK) RD, ?_, ?_⟩
+  · simp only [resolveNested, hRK, updateNested, hRD]
+  · have hobjF : toFlat (linLoop [c] [] ko) (String.ofList (joinWith c q)) = x := by
+      cases q with
+      | nil => exact absurd rfl hqne
+      | cons s q' =>
+        have : lookup (.str (joinWith c (s :: q'))) (linLoop [c] [] ko) = some x :=
+          (lookup_linearize c ko hobj _ x).mpr ⟨s, q', rfl, hq⟩
+        simp [toFlat, String.toList_ofList, this]
+    have hdefK : familyDefaults base fams (String.ofList (joinWith c q)) =
+        (lookup (.str (joinWith c q)) (flatOf c dfE)).join := by
+      rw [← hdef]; simp [toFlat, String.toList_ofList]
+    -- after the first update
+    have h1 : ∃ a, getPath (updDict false false (.node ko) RK) (q.map Key.str) = some (.leaf a) ∧
+        update (toFlat (linLoop [c] [] ko)) (kwList c kwE) (String.ofList (joinWith c q)) = a := by
+      by_cases hk : ∃ v, (q, v) ∈ kwE
+      · obtain ⟨v, hv⟩ := hk
+        refine ⟨v, ?_, ?_⟩
+        · rw [getPath_updDict_trie_hit false false hgK hlK _ hq hv]; simp
+        · apply update_of_mem _ _ (kwList_keys_ne c kwE hsfk hpfk)
+          simp only [kwList, List.mem_map]
+          exact ⟨(q, v), hv, rfl⟩
+      · have hk' : ∀ v, (q, v) ∉ kwE := fun v hv => hk ⟨v, hv⟩
+        refine ⟨x, ?_, ?_⟩
+        · rw [getPath_updDict_trie_miss false false hgK hlK hnK _ hqne hck hk']; exact hq
+        · rw [update_other _ _ _ ?_, hobjF]
+          intro kv hkv
+          simp only [kwList, List.mem_map] at hkv
+          obtain ⟨e, he, rfl⟩ := hkv
+          intro heq
+          have h0 := hsfk e he
+          have := joinWith_inj h0.1 hqne h0.2 hqf (String.ofList_injective heq)
+          exact hk' e.2 (by rw [← this]; exact he)
+    obtain ⟨a, ha1, ha2⟩ := h1
+    simp only [getStyle, fillNone, ha2]
+    by_cases hd : ∃ w, (q, w) ∈ dfE
+    · obtain ⟨w, hw⟩ := hd
+      rw [getPath_updDict_trie_hit true true hgD hlD _ ha1 hw, hdefK, lookup_flatOf hsfd hpfd hw]
+      cases a <;> simp
+    · have hd' : ∀ w, (q, w) ∉ dfE := fun w hw => hd ⟨w, hw⟩
+      rw [getPath_updDict_trie_miss true true hgD hlD hnD _ hqne hcd hd', ha1, hdefK]
+      have hnone : lookup (.str (joinWith c q)) (flatOf c dfE) = none := by
+        cases h : lookup (.str (joinWith c q)) (flatOf c dfE) with
+        | none => rfl
+        | some w =>
+          exfalso
+          obtain ⟨q2, hk2, hm2⟩ := mem_of_lookup_flatOf h
+          injection hk2 with hk2
+          have h0 := hsfd _ hm2
+          have := joinWith_inj hqne h0.1 hqf h0.2 hk2
+          exact hd' w (by rw [this]; exact hm2)
+      rw [hnone]
+      cases a <;> simp
+
+
+/-- non-vacuity: object style `{path: {line: {width: None, color: 4}}, opacity: None}`, show() keyword
+`path_line_width=7`, defaults `path_line_width=1, path_line_color=2, opacity=3, unknown_key=9`:
+resolved `{path: {line: {width: 7, color: 4}}, opacity: 3}` (keyword > object > defaults, unknown default ignored) -/
+example :
+    okEq (resolveNested '_' (.node [(.str "path".toList, .node [(.str "line".toList, .node [(.str "width".toList, .leaf none), (.str "color".toList, .leaf (some 4))])]),
+                              (.str "opacity".toList, .leaf none)])
+      [(.str "path_line_width".toList, .leaf (some 7))]
+      [(.str "path_line_width".toList, .leaf (some 1)), (.str "path_line_color".toList, .leaf (some 2)), (.str "opacity".toList, .leaf (some 3)),
+       (.str "unknown_key".toList, .leaf (some 9))])
+    (.node [(.str "path".toList, .node [(.str "line".toList, .node [(.str "width".toList, .leaf (some 7)), (.str "color".toList, .leaf (some 4))])]),
+            (.str "opacity".toList, .leaf (some 3))]) = true := by
+  decide +kernel
+
+end nested
 
 end MagpyVerif.C20
